@@ -19,7 +19,7 @@ for be in BACKS:
     for var, D in (('', []), ('.queues_empty', ['QUEUES_EMPTY=1'])):
         UNITS.append(Unit(be + '.do_copy' + var, ['C15', 'C13'], be, Part(SM, [], 'void do_copy ( library_sm const & rhs , dummy < 0 > = 0 )'),
             'void do_copy(fsm_t* self, const fsm_t* rhs)', 'copy_serialize.spec.h', defines=D,
-            xform=back_xform([], refparams=('rhs',), members=['m_events_queue', 'm_deferred_events_queue', 'm_history', 'm_event_processing', 'm_is_included', 'm_substate_list'], rewrites=RW),
+            xform=back_xform([], refparams=('rhs',), members=['m_events_queue', 'm_deferred_events_queue', 'm_history', 'm_event_processing', 'm_is_included', 'm_substate_list', 'm_upper_fsm', 'm_root_sm'], rewrites=RW),
             also_replace_if_present=['regions_do_copy'], replay=['copy']))
     UNITS.append(Unit(be + '.serialize', ['C16'], be, Part(SM, [], 'void serialize ( Archive & ar , const unsigned int )'),
         'void serialize(fsm_t* self, archive_t* ar, unsigned int version)', 'copy_serialize.spec.h',
